@@ -32,7 +32,8 @@ var futOps = []struct{ name, text string }{
 	{"done?", "(future-done? f)"},
 	{"cancelled?", "(future-cancelled? f)"},
 	{"cancel", "(future-cancel f)"},
-	{"deref-ctx-ended", "(deref f)"}, // evaluated under a context that has already ended
+	{"deref-cancellable", "(deref f)"}, // evaluated under the scenario's cancellable caller context
+	{"end-caller-context", ""},       // harness operation: that caller context ends (like a deadline passing)
 }
 
 type futOp struct {
@@ -54,6 +55,8 @@ type c10state struct {
 	waiting  bool // body is parked in wait-cancel!
 	bodyCtx  context.Context // the context the body runs under (recorded by the probe! builtin)
 	callersDone int
+	callerCtx    *c10callerCtx // context of the deref-cancellable operations
+	selectNext   bool          // the running thread just passed Deref's wait: its select comes next
 	tornDown    bool // the harness released a body that waits for a cancellation nobody issued
 	teardownAt  int  // clock value at that moment: operations returning later are not judged
 }
@@ -98,8 +101,20 @@ func init() {
 				return 9, nil
 			})
 			// observe the body goroutine's progress through the hook labels
-			origPoint, origExit := verifhook.PointFn, verifhook.ExitFn
+			origPoint, origExit, origAwait := verifhook.PointFn, verifhook.ExitFn, verifhook.AwaitFn
+			verifhook.AwaitFn = func(pred func() bool, why string) {
+				if cur != nil {
+					cur.selectNext = false
+				}
+				origAwait(pred, why)
+				if cur != nil && why == "future.deref" {
+					cur.selectNext = true // nothing is scheduled between the wait and Deref's select
+				}
+			}
 			verifhook.PointFn = func(l string) {
+				if cur != nil {
+					cur.selectNext = false
+				}
 				if l == "future.send" && cur != nil {
 					cur.bodyEnd, cur.sent = cur.clock, true
 				}
@@ -190,6 +205,7 @@ func init() {
 					st := &c10state{}
 					cur = st
 					st.scope = env.NewSubordinateEnv(base)
+					st.callerCtx = &c10callerCtx{st: st, open: make(chan struct{}), closed: c10closed}
 					return st
 				},
 				Threads: func(state any) []func() {
@@ -220,12 +236,18 @@ func init() {
 								st.clock++
 								h.inv = st.clock
 								opCtx := context.Background()
-								if futOps[o].name == "deref-ctx-ended" {
-									c, cancel := context.WithCancel(context.Background())
-									cancel()
-									opCtx = c
+								if futOps[o].name == "deref-cancellable" {
+									opCtx = st.callerCtx
 								}
-								res, err, pn := lx.Eval(opCtx, lx.MustRead(futOps[o].text), st.scope)
+								var res types.MalType
+								var err error
+								var pn *lx.Panic
+								if futOps[o].name == "end-caller-context" {
+									st.callerCtx.ended = true
+									res = "ended"
+								} else {
+									res, err, pn = lx.Eval(opCtx, lx.MustRead(futOps[o].text), st.scope)
+								}
 								st.clock++
 								h.ret = st.clock
 								h.done = true
@@ -431,7 +453,7 @@ func init() {
 		}
 		fam := &vf.Family{
 			Name:    "future-scenarios",
-			Bounds:  "4 future bodies (returns, throws, waits for cancellation, ignores cancellation) x caller plans: one thread with every sequence of 1-3 operations over {deref, done?, cancelled?, cancel}; two threads with 1-2 operations each (quick: <=3 operations in total); thorough: also three threads x 1 operation; per scenario all interleavings at the hook points of lib/concurrent (spawn, deliver, deliver->flag, cancel check/set, deref wait/re-deposit) up to preemption bound 2 (quick) / 3 (thorough)",
+			Bounds:  "4 future bodies (returns, throws, waits for cancellation, ignores cancellation) x caller plans: one thread with every sequence of 1-3 operations over {deref, done?, cancelled?, cancel, deref under a cancellable caller context, end of that caller context}; two threads with 1-2 operations each (quick: <=3 operations in total); thorough: also three threads x 1 operation; per scenario all interleavings at the hook points of lib/concurrent (spawn, deliver, deliver->flag, cancel check/set, deref wait/re-deposit) up to preemption bound 2 (quick) / 3 (thorough)",
 			Setup:   setup,
 			Timeout: 120 * time.Second,
 			N:       func(t string) int64 { tier = t; return int64(len(plansOf())) },
@@ -466,10 +488,52 @@ func init() {
 			RacePass: c10RacePass,
 			ID: "C10", Level: "model_checking",
 			Rule: "every scenario (future body x caller threads x operations) is explored by the controlled scheduler over the real lib/concurrent with hook points in the deliver->flag, check->set and take->re-deposit windows; on every complete execution: the body ran exactly once, all derefs agree, status predicates are monotone in real-time order, done? is true after any deref returned and after a successful cancel, cancelled? is true after a successful cancel and never without one, cancel does not return false on a running future, and nothing blocks forever except derefs of a future that legitimately never completes; non-trivial = scenario with a context switch inside an operation",
-			Assumptions: []string{"plain (unsynchronised) flag accesses are atomic under the cooperative scheduler; data races on them are the race pass's job", "the caller's context never ends in these scenarios"},
+			Assumptions: []string{"plain (unsynchronised) flag accesses are atomic under the cooperative scheduler; data races on them are the race pass's job", "the caller context of the cancellable derefs is the harness's own type: Deref's select between an ended context and an available outcome is decided by the scheduler (outcome arm forced, context arm drawn and re-run until drawn)"},
 			Families: []*vf.Family{fam},
 		}
 	})
+}
+
+var c10closed = func() chan struct{} { c := make(chan struct{}); close(c); return c }()
+
+// c10callerCtx is the caller context of the deref-cancellable operations. It ends when the
+// end-caller-context operation runs. Deref selects between that context and the future's
+// outcome; when both are ready Go's select picks one at random, and the property must hold
+// for either pick. The harness owns that choice: at the select (the Done call that follows
+// Deref's wait) with an outcome available and the context ended, the scheduler chooses the
+// arm. The outcome arm is forced by handing the select a channel that is not ready (to the
+// code this is the context ending an instant after the select). The context arm cannot be
+// forced, only drawn: an execution in which the select is seen taking the outcome arm
+// instead (its next hook point is the re-deposit) is discarded and run again.
+type c10callerCtx struct {
+	st     *c10state
+	ended  bool
+	open   chan struct{}
+	closed chan struct{}
+}
+
+func (c *c10callerCtx) Deadline() (time.Time, bool) { return time.Time{}, false }
+func (c *c10callerCtx) Value(any) any               { return nil }
+func (c *c10callerCtx) Err() error {
+	if c.ended {
+		return context.Canceled
+	}
+	return nil
+}
+func (c *c10callerCtx) Done() <-chan struct{} {
+	if !c.ended {
+		return c.open
+	}
+	sel := c.st.selectNext
+	c.st.selectNext = false
+	f := c.st.fut
+	if s := vcore.Active(); sel && s != nil && f != nil && (len(f.ErrChan) > 0 || len(f.ValChan) > 0) {
+		if s.Choose(2, "deref.select") == 0 {
+			return c.open // the select takes the outcome
+		}
+		s.ForbidNext("deref.redeposit") // the select is to take the context arm
+	}
+	return c.closed
 }
 
 func min1(n int) int {
